@@ -74,11 +74,12 @@ func C15(c *Ctx) {
 	c.Bound("x: %d tokens, y: %d tokens, arbitrary int64 codes and values; histories [y, x, init, y] and [init, init, y]; all four Go variants", nx, ny)
 	c.Outside = append(c.Outside, "longer histories than three parses (no inductive reset step registered)", "real thread-level concurrency (only sequential interleaving of whole parses on distinct contexts)", "TypeScript variant")
 	c.Harnesses = append(c.Harnesses, "generated zz_verif_spec.go:VerifHistory")
-	runGenEntry(c, "C15", "VerifHistory", []int{nx, ny}, GoVariants, []string{"after-accept", "after-reject"}, nil)
+	small := func(name string) bool { return c.Thorough() || (name != "stmts12" && name != "len10" && name != "prec_mixed") }
+	runGenEntry(c, "C15", "VerifHistory", []int{nx, ny}, GoVariants, []string{"after-accept", "after-reject"}, small)
 	c.Bound("interleaving: a complete parse of y on a second context inside the k-th reduction (k symbolic) of a parse of x; object-mode variants")
 	c.Harnesses = append(c.Harnesses, "generated zz_verif_spec.go:VerifInterleave")
 	c.Explanation += " Interleaving on distinct contexts is explored at the granularity of semantic actions: the harness starts a complete parse on a fresh context from inside a solver-chosen reduction of another parse and requires both outcomes to equal the solo runs; the set of package-level variables written during an object-mode parse is recorded as a note."
-	runGenEntry(c, "C15", "VerifInterleave", []int{nx + 1, ny}, []string{"go-o", "go-o-u"}, []string{"interleaved"}, nil)
+	runGenEntry(c, "C15", "VerifInterleave", []int{nx + 1, ny}, []string{"go-o", "go-o-u"}, []string{"interleaved"}, small)
 	c15TS(c, nx, ny)
 }
 
